@@ -125,7 +125,7 @@ CHECKS = {
     },
     "C16": {
         "level": "fault_enumeration",
-        "parts": [{"gen": "C16", "quick": 570, "thorough": 570, "exhaustive": True}],
+        "parts": [{"gen": "C16", "quick": 600, "thorough": 600, "exhaustive": True}],
         "exhaustive_claim": True,
         "rule": "exhaustive over the documented names (570 cases, the seed is the case index): every cipher name (7 + the chacha20-ietf-poly1305 alias) x every server mode (tcp, udp, tcp_and_udp, quic, tcp_and_quic), "
                 "default modes, every client mode x protocol, every Shadowsocks-2022 key length 0..48 bytes as client password, server password and user-table key, and 26 undocumented cipher / protocol / mode strings "
